@@ -1,6 +1,6 @@
 (* C08 — Simpson local grid: degree-3 exactness for every number M >= 1 of panel pairs (npwb = 2M+1), by induction
    over the panel pairs; boundary-off = boundary-on without the global boundary points (repaired slice). *)
-From Coq Require Import ZArith List QArith Qcanon Bool Arith Lia Lra.
+From Coq Require Import ZArith List QArith Qcanon Bool Arith Lia Lqa.
 From SG Require Import Base.QcUtil Model.Tensor Model.LocalGrids Proofs.TensorRule Proofs.LocalGridsBase Proofs.LocalGridsTrap.
 Import ListNotations.
 Open Scope Qc_scope.
